@@ -659,11 +659,16 @@ func (g *genCtx) condition() (Expr, []capVar) {
 		}
 		g.f("cond-pattern||")
 		return &Bin{Op: "||", L: &PatCond{p}, R: rhs, T: TBool}, deadCaps(p)
-	case k < 15 && len(g.capsOf(TString)) > 0:
+	case k < 15:
 		// e =~ /re/
-		c := g.capref(ev.PickOne(r, g.capsOf(TString)))
+		var c Expr
+		if cs := g.capsOf(TString); len(cs) > 0 {
+			if cr := g.capref(ev.PickOne(r, cs)); cr != nil {
+				c = cr
+			}
+		}
 		if c == nil {
-			break
+			c = &Call{Name: "getfilename", T: TString}
 		}
 		p := &Pattern{ID: g.npat}
 		g.npat++
